@@ -6,7 +6,7 @@ from core import cq, fr, fl
 import leafgen as lg
 
 ID = 'C01'
-GEN = ['kernels']
+GEN = ['kernels', 'classes']
 PROPS = 'Props/C01.v'
 MODEL_VO = ['Model/Dev.v']
 CASE_TYPE = 'leafdev Q * list Q * list Q * Q * list Q'
